@@ -117,6 +117,8 @@ class Registry:
         self.mutants = {}
         self.lemmas = []         # (property, name, pc, goal): induction steps of spec-function lemmas
         self.static_checks = []  # (property, name, fn(repo) -> (ok, detail)): obligations decided on the AST, no solver
+        self.also_verify = {}    # property -> [(rel, qual)]: contracts of OTHER properties this property's statement is
+                                 # composed with (re-verified in this property's run, reported as dependencies)
 
     # ---- declarations ---------------------------------------------------------
     def classdecl(self, name, file=None, fields=None, bases=(), truthy=None):
